@@ -1,6 +1,7 @@
 import NbioVerif.Model.Resp
 import NbioVerif.Model.Own
 import NbioVerif.Model.OwnBody
+import NbioVerif.Model.OwnConn
 import NbioVerif.Model.Http
 import NbioVerif.DrvCommon
 /-! respdrv: line-protocol driver of the HTTP response model (harness/cmd/hresp).  See the header of
@@ -91,12 +92,36 @@ structure BS where
   handler : Own.Handler := {}
   dead : Bool := false
 
+/-- conn-case state: the write-queue twin -/
+structure CSt where
+  cs : OwnC.CS := {}
+  maxWB : Nat := 0
+  fsize : Nat := 0
+
 structure DS where
   g : Cfg
   r : R
   ph : Phase
   o : Own.O := {}
   b : Option BS := none
+  c : Option CSt := none
+
+def parseAns (s : String) : Option (List OwnC.KAns) :=
+  if s == "-" || s == "" then some [] else
+  (s.splitOn ",").mapM fun t =>
+    if t == "eagain" then some .eagain
+    else if t == "eintr" then some .eintr
+    else if t == "fail" then some .fail
+    else if t.startsWith "w" then (t.drop 1).toString.toNat?.bind fun n => if n > 0 then some (.wrote n) else none
+    else none
+
+def showItems (wl : List OwnC.CItem) : String :=
+  if wl.isEmpty then "-" else String.intercalate "," (wl.map fun
+    | .buf _ len off _ => s!"b{len}/{off}"
+    | .file rem => s!"f{rem}")
+
+def showCErr : OwnC.CErr → String
+  | .none => "none" | .closed => "closed" | .overflow => "overflow" | .io => "io"
 
 /-- the tracker's capacity policy -/
 def capOf (n : Nat) : Nat := max 64 ((n + 63) / 64 * 64)
@@ -167,16 +192,52 @@ partial def loop (h : IO.FS.Stream) (s : DS) : IO Unit := do
   match ws with
   | "C" :: "resp" :: rest =>
     match mkCfg rest with
-    | some g => IO.println "ok"; loop h { g := withHead g, r := {}, ph := .running, o := {}, b := none }
+    | some g => IO.println "ok"; loop h { g := withHead g, r := {}, ph := .running, o := {}, b := none, c := none }
     | none => IO.println "bad-op"; loop h { s with ph := .none }
   | "C" :: "body" :: rest =>
     match field rest "maxbody", field rest "rl", (field rest "hp").bind mkHandler with
     | some mb, some rl, some hd =>
       let hg : Http.Cfg := { isClient := false, maxBody := mb.toNat!, urlOk := fun _ => true, protoOk := fun _ => true }
       IO.println "ok"
-      loop h { s with ph := .none, b := some { hg, hp := Http.init hg, maxBody := mb.toNat!, rl := rl.toNat!, handler := hd } }
+      loop h { s with ph := .none, c := none, b := some { hg, hp := Http.init hg, maxBody := mb.toNat!, rl := rl.toNat!, handler := hd } }
     | _, _, _ => IO.println "bad-op"; loop h { s with ph := .none, b := none }
-  | "C" :: _ => IO.println "bad-op"; loop h { s with ph := .none, b := none }
+  | "C" :: "conn" :: rest =>
+    match (field rest "maxwb").bind (fun (t : String) => t.toNat?), (field rest "fsize").bind (fun (t : String) => t.toNat?), field rest "typ" with
+    | some mw, some fs, some typ =>
+      if typ == "tcp" || typ == "unix" then
+        IO.println "ok"; loop h { s with ph := .none, b := none, c := some { maxWB := mw, fsize := fs } }
+      else IO.println "bad-op"; loop h { s with ph := .none, b := none, c := none }
+    | _, _, _ => IO.println "bad-op"; loop h { s with ph := .none, b := none, c := none }
+  | "C" :: _ => IO.println "bad-op"; loop h { s with ph := .none, b := none, c := none }
+  | "O" :: kind :: rest =>
+    match s.c, (field rest "K").bind parseAns <|> (if kind == "close" then some [] else none) with
+    | some c, some ks =>
+      let n0 := c.cs.heap.trace.length
+      let args := rest.filter (fun t => !t.startsWith "K=")
+      let k1 : OwnC.KAns := ks.headD .eagain
+      let res : Option (OwnC.CS × OwnC.CErr) :=
+        match kind, args with
+        | "write", [n] => n.toNat?.map fun n => OwnC.write capOf c.maxWB c.cs n k1
+        | "writev", [ns] => ((ns.splitOn ",").mapM (fun (t : String) => t.toNat?)).map fun bs => OwnC.writev capOf c.maxWB c.cs bs k1
+        | "sendfile", [off, ln] =>
+          match off.toNat?, ln.toNat? with
+          | some off, some ln =>
+            if c.fsize == 0 || off > c.fsize then none else
+            let rem := if ln == 0 || ln > c.fsize - off then c.fsize - off else ln
+            some (OwnC.sendfile c.cs rem ks)
+          | _, _ => none
+        | "flush", [] =>
+          if c.cs.closed then some (c.cs, .closed) else
+          let cs' := OwnC.flush c.cs ks
+          some (cs', if cs'.closed then .io else .none)
+        | "close", [] => some (OwnC.close c.cs, .none)
+        | _, _ => none
+      match res with
+      | some (cs, err) =>
+        IO.println s!"R err={showCErr err} q={showItems cs.wl} tr={Own.traceSince cs.heap n0}"
+        loop h { s with c := some { c with cs } }
+      | none => IO.println "bad-op"; loop h s
+    | _, _ => IO.println "bad-op"; loop h s
   | ["D", hx] =>
     match s.b with
     | none => IO.println "bad-op"; loop h s
